@@ -155,9 +155,20 @@ func C09(r *core.Run) {
 				for k := 0; k < auth; k++ {
 					name := []string{"Authorization", "authorization", "AUTHORIZATION", "AuThOrIzAtIoN"}[rng.Intn(4)]
 					val := []string{"Basic " + base64.StdEncoding.EncodeToString([]byte("u:"+tok)), "Bearer secret-" + tok, "Negotiate x" + tok}[rng.Intn(3)]
+					if k == 0 && auth > 1 && rng.Intn(3) == 0 {
+						val = []string{"", " "}[rng.Intn(2)] // an empty first value followed by a real one
+					}
 					c.Fields = append(c.Fields, rawhttp.Field{Name: name, Value: val})
 				}
-				rng.Shuffle(len(c.Fields), func(a, b int) { c.Fields[a], c.Fields[b] = c.Fields[b], c.Fields[a] })
+				emptyAuth := false
+				for _, f := range c.Fields {
+					if strings.EqualFold(f.Name, "Authorization") && strings.TrimSpace(f.Value) == "" {
+						emptyAuth = true
+					}
+				}
+				if !emptyAuth {
+					rng.Shuffle(len(c.Fields), func(a, b int) { c.Fields[a], c.Fields[b] = c.Fields[b], c.Fields[a] })
+				}
 				if c.Shim {
 					c.URLForm = []string{"absolute", "absolute", "userinfo", "path-only", "userinfo-no-password"}[rng.Intn(5)]
 				}
